@@ -89,10 +89,13 @@ CHECKS = {
             "C08_network_quiescent: for ANY finite wiring of conserving elements, injected = delivered + dropped + held "
             "(Props/C08_Net.v). 44 theorems. Every element model is replayed against the real class (500 quick / 12000 thorough cases over "
             "all parts) and random pipelines generator -> 1-3 real elements -> per-flow sinks are run to quiescence under a conservation monitor.",
-            "Demultiplexers/switches are covered by C18's exactly-one-output theorems (their conservation is that statement) and by the "
-            "pipeline monitor, not by a separate C08 theorem. Pipelines have no composite Coq model: the proof side is the composition "
-            "theorem applied to the per-element theorems; the wiring hypotheses (every forwarded packet goes to exactly one place) are "
-            "checked on the real pipelines by taps. Repairs are listed under the elements' own properties.",
+            "Composition is proved, not only monitored: Elem/Iface.v + Compose.v give A >> B, pipelines of any length, fan-in and fan-out "
+            "with projection of every execution onto every stage and compositional conservation / per-flow FIFO / drained "
+            "(Props/C08_Pipe.v, 46 theorems); the REAL SimplePacketSwitch and FairPacketSwitch (demux >> bank of Port [>> SP | WFQ | "
+            "VirtualClock | DRR]) and NSplitter / Hub are instances for all port counts and tables (Props/C08_Route.v, 16 theorems), "
+            "replayed against the real classes in one Environment (kinds pipe, fanin, fanout, sswitch, fswitch, fswitch2, flowdemux, "
+            "fibdemux, nsplitter, hub). The free-form `pipeline` kind (generator -> random elements -> sinks) stays monitor-only. "
+            "Repairs are listed under the elements' own properties (incl. 965d42d: Wire entry stamp per queued entry).",
             "DESIGN.md section 4 C08, section 8"),
     "C11": ("21 theorems (Props/C11.v): TokenBucket executions are the (rate, B, peak) recurrence: head = max(arrival, previous departure), "
             "debit at the least instant the bucket holds the size (uncapped only for packets > B), departure = debit + 8*size/peak, "
@@ -179,7 +182,11 @@ CHECKS = {
             "instant) and all draws of the Gallina models of Wire and Cable; the models are compared action by action with the real "
             "Wire/Cable on 400 (quick) / 12000 (thorough) generated executions per run.",
             "Full. 'With probability p' is read as: lost iff the uniform draw is < loss_rate. Admissibility of the real kernel's "
-            "executions (urgent steps before the clock advances) is checked on every observed execution, and is C01's theorem for the kernel model.",
+            "executions (urgent steps before the clock advances) is checked on every observed execution, and is C01's theorem for the kernel model. "
+            "Wire.put and the generator Wire.run are translated from /repo on every run and proved equal to the model's steps. The theorems assume "
+            "a loss rate fixed for the run; reconfiguration between packets is covered by the per-action correspondence and the monitor. Repair "
+            "965d42d: the entry instant was kept only in packet.current_time, so the same Packet object put again while its earlier traversal "
+            "was still queued (a TCP retransmission) was held too long; found by the 'same object, several traversals' cases.",
             "DESIGN.md section 4 C10, section 8"),
     "C13": ("For all rates > 0, all priority tables over distinct flows and all admissible executions of the Gallina model of the repaired SP "
             "(onl/scheduler/sp.py + base.py): whenever run() dequeues a packet of flow f every flow of larger priority holds nothing "
@@ -226,8 +233,8 @@ CHECKS = {
             "proved unreachable because W_last_max is only ever 0): C17_cubic_growth_rule, epoch_start_rule, slow_start_rule, "
             "cubic_new_ack_rule with the computed cnt; cnt is compared within a relative 1e-5 (max_cnt = cwnd/(W_tcp - cwnd) is "
             "ill-conditioned in binary64), W_tcp within 1e-9. The translated-body tie covers CongestionControl, TCPReno and the TCPCubic methods (C17_gen_cubic_*: `**3` as repeated "
-            "multiplication, any other `**` fails closed); the estimator lines and the dupack bookkeeping inside put() are tied by "
-            "correspondence and monitor only. Float-valued fields are compared within a relative 1e-12 per "
+            "multiplication, any other `**` fails closed) and, since round 3, TCPPacketGenerator.put (dupack bookkeeping, deflation, fast retransmit, "
+            "RTT estimator) and timeout_callback (C17_gen_sender_put, C17_gen_sender_timeout). Float-valued fields are compared within a relative 1e-12 per "
             "transition from the observed pre-state; theorems are over Q. The translator (props/tcp_common.translate_cc) is part of the "
             "trusted base of this property; a harmless rewrite of a translated method makes the bridging obligations fail "
             "(reported no-failing-input-found). Repair: eae436e.",
@@ -243,7 +250,9 @@ CHECKS = {
             "end-to-end simulations (incl. real WFQ/DRR/VirtualClock in FairPacketSwitch).",
             "PARTIAL in one clause: that networkx.all_shortest_paths yields shortest paths is checked per run (each generated path is "
             "validated in Coq by path_ok; C18_path_ok_shortest_partial says an accepted path is a shortest simple walk of the model), "
-            "not proved about networkx. Repairs: e4841d3, 2ad9c6f, 6208ccc, a442c71, 3ac02a4.",
+            "not proved about networkx. The hub is a state machine over attach / send / rename actions (C18_hub_repeats_dynamic: every send "
+            "sees exactly the population attached so far); demuxes, switches and splitters are reconfigured between packets in the "
+            "compared runs. Repairs: e4841d3, 2ad9c6f, 6208ccc, a442c71, 3ac02a4.",
             "DESIGN.md section 4 C18, section 8"),
     "C19": ("For every admissible history of stop()/restart(tau) calls by foreign processes and by the timer's own callback, at any instants "
             "incl. the expiry instant and several per instant, one-shot and auto-restart, all positive timeouts: fires exactly at expiry / "
@@ -273,6 +282,29 @@ CHECKS = {
 NOT_APPLICABLE = []
 
 
+
+def counted(pid):
+    """statements of coq/Props/<pid>*.v as they are on disk: (all, non-vacuity witnesses, bridge theorems about translated bodies, files)"""
+    import glob
+    import re
+    files = sorted(glob.glob(os.path.join(VERIF, "coq", "Props", pid + "*.v")))
+    allt = wit = br = 0
+    for f in files:
+        names = re.findall(r"^(?:Theorem|Lemma|Corollary)\s+([A-Za-z0-9_']+)", open(f).read(), re.M)
+        allt += len(names)
+        wit += sum(1 for n in names if "_ex_" in n)
+        br += sum(1 for n in names if "_gen_" in n and "_ex_" not in n)
+    return allt, wit, br, [os.path.basename(f) for f in files]
+
+
+def suffix(pid):
+    a, w, b, files = counted(pid)
+    return (f" AS OF THIS MANIFEST the property has {a} proof obligations in {len(files)} statement files (coq/Props/{pid}*.v), each closed under "
+            f"the global context: {a - w - b} property/refutation theorems, {b} bridge theorems (Cnn_gen_*: a leaf method or generator body "
+            f"translated from /repo's current source on every run equals the hand-written model step, for all inputs; DESIGN 8.4, 8.9) and {w} "
+            f"non-vacuity witnesses (Cnn_ex_*: all hypotheses of the theorems instantiated at one concrete non-trivial execution).")
+
+
 def main():
     checks = []
     for pid in sorted(CHECKS):
@@ -285,7 +317,7 @@ def main():
             "replay_cmd_template": f"./check {pid} --replay {{path}}",
             "engine": "coq-proof+correspondence",
             "technique": TECH,
-            "level_claimed": {"category": "proof", "text": text, "design_ref": ref},
+            "level_claimed": {"category": "proof", "text": text + suffix(pid), "design_ref": ref},
             "level_note": note + " " + COMMON_NOTE,
         })
     listed = set(CHECKS)
@@ -310,7 +342,7 @@ def main():
         "checks": checks,
         "not_applicable": NOT_APPLICABLE,
         "notes": "Genuine defects repaired by fix: commits in /repo and remaining known findings are listed in /verif/known_findings.json. "
-                 "Properties not listed under checks are still being built in this round (see DESIGN.md section 8).",
+                 "All 20 properties are claimed; DESIGN.md section 8 (8.9 for the last round) describes the state as built.",
     }
     with open(os.path.join(VERIF, "MANIFEST.json"), "w") as fh:
         json.dump(m, fh, indent=1)
